@@ -114,7 +114,9 @@ def _subtree(task):
             st.divergences += 1
             st.errors.append(f"divergence case={case_idx} prefix={_dense(pre)[-12:]}: {e}")
             continue
-        except Exception:
+        except KeyboardInterrupt:
+            raise
+        except BaseException:  # noqa -- a BaseException escaping here would kill the pool worker and lose the task
             st.errors.append(f"harness error case={case_idx} prefix={_dense(pre)}:\n{traceback.format_exc()}")
             continue
         trace = out.trace
@@ -190,6 +192,7 @@ class Explorer:
         results = _q.Queue()
         inflight = 0
         ok = True
+        stalls = 0
         maxfly = self.workers * 3
         while todo or inflight:
             while todo and inflight < maxfly:
@@ -197,7 +200,17 @@ class Explorer:
                 self.pool.apply_async(_subtree, ((ci, pre, b, budget, deadline),), callback=results.put,
                                       error_callback=results.put)
                 inflight += 1
-            res = results.get()
+            try:
+                res = results.get(timeout=90)
+                stalls = 0
+            except _q.Empty:
+                stalls += 1
+                print(f"[explore] no result for {90 * stalls}s; inflight={inflight} todo={len(todo)}", flush=True)
+                if stalls >= 4:
+                    total.errors.append(f"explorer stalled: {inflight} task(s) never reported back (worker died?)")
+                    ok = False
+                    break
+                continue
             inflight -= 1
             if isinstance(res, BaseException):
                 total.errors.append(f"worker error: {res!r}")
